@@ -94,6 +94,10 @@ func Generated() []Prog {
 		"def hm(a)\n  a\nend\ndef hn(b)\n  b.upcase\nend\n[1, 2].each do |bx|\n  by = hm(bx)\n  hn(by)\nend\n{a: 1.5}.each do |bk, bv|\n  bw = hm(bv)\n  hn(bw)\nend\n",
 		// a user class with operator methods, called in operator syntax
 		"class Vecq\n  def initialize(x)\n    @x = x\n  end\n\n  def +(other)\n    Vecq.new(1)\n  end\n\n  def ==(other)\n    true\n  end\n\n  def scale(k)\n    self + self\n  end\nend\nva = Vecq.new(1)\nvb = Vecq.new(2)\nvc = va + vb\ndbtp vc\nif va == vb\n  vd = va + va\nend\ndbtp va.scale(2)\n[va].each { |ve| ve + vb }\n",
+		// entries that stay unresolved in every round: a reader of an instance variable nobody assigns, a parameter no call passes
+		"class Reportq\n  attr_reader :path\n  attr_accessor :depth\n\n  def initialize\n  end\nend\ndef fmtq(value, unit)\n  value\nend\nrq = Reportq.new\nrq.path\ndbtp rq.path\nfmtq(1)\ndbtp rq.depth\nrq.zork\n",
+		// parenthesised, block-less calls of block-capable methods at the end of a line, directly followed by a block-form conditional / loop
+		"def capq(list, n)\n  mq = list.max(n)\n  if n > 1\n    n.zork\n  end\n  list.count(1)\n  unless n.nil?\n    n.zork2\n  end\n  mq.zork3\nend\ncapq([1, 2], 1)\ndef blkq(&block)\n  1\nend\ndef use_blkq(v)\n  blkq()\n  unless v.nil?\n    v.zork4\n  end\n  {a: 1}.merge({b: 2})\n  while v > 9\n    v.zork5\n  end\n  v.zork6\nend\nuse_blkq(1)\n",
 		// singleton methods on two objects, each called on the right and on the wrong object
 		"oa = \"x\"\ndef oa.shout\n  1\nend\nob = \"y\"\ndef ob.whisper\n  2.5\nend\ndbtp oa.shout\ndbtp ob.whisper\nob.shout\noa.whisper\noc = [1]\ndef oc.extra\n  :s\nend\ndbtp oc.extra\nob.extra\n",
 		// configured methods called with their keyword arguments
